@@ -1008,6 +1008,240 @@ Proof.
     destruct Hx as [<-|[]]. split; [reflexivity|]. split; [discriminate | reflexivity].
 Qed.
 
+(** * the JSON listing ([Collection.serialized]) *)
+Definition jtask_row (depth : nat) (ad : bool) (t : taskinfo) : row :=
+  (S depth, transform ad (t_name t), map (transform ad) (t_aliases t), Some (t_id t)).
+
+Definition jorder (subs : list (string * coll)) : list (string * string) :=
+  sort_by fst (map (fun kc => (ostr (c_name (snd kc)), fst kc)) subs).
+
+Lemma json_rows_unfold nm tasks aliases subs dflt ad cfg depth :
+  json_rows (Coll nm tasks aliases subs dflt ad cfg) depth =
+  (depth, ostr nm, match dflt with Some d => [d] | None => [] end, None) ::
+  map (jtask_row depth ad) (sort_by t_name (map snd tasks)) ++
+  flat_map (fun nk => pick (fun sc => json_rows sc (S depth)) [] subs (snd nk)) (jorder subs).
+Proof.
+  cbn [json_rows]. f_equal. f_equal. apply flat_map_ext. intros nk.
+  induction subs as [|[k' sc] l IH]; [reflexivity|].
+  cbn [pick]. destruct (String.eqb (snd nk) k'); [reflexivity | exact IH].
+Qed.
+
+Definition jentry (anc : list string) (ad : bool) (t : taskinfo) : entry :=
+  (anc, transform ad (t_name t), t_id t, map (transform ad) (t_aliases t)).
+
+Fixpoint jshown (c : coll) (anc : list string) {struct c} : list entry :=
+  match c with
+  | Coll _ tasks _ subs _ ad _ =>
+      map (jentry anc ad) (sort_by t_name (map snd tasks)) ++
+      flat_map (fun nk : string * string =>
+                  (fix find (l : list (string * coll)) {struct l} : list entry :=
+                     match l with
+                     | [] => []
+                     | (k', sc) :: l' =>
+                         if String.eqb (snd nk) k' then jshown sc (anc ++ [snd nk]) else find l'
+                     end) subs)
+               (jorder subs)
+  end.
+
+Lemma jshown_unfold nm tasks aliases subs dflt ad cfg anc :
+  jshown (Coll nm tasks aliases subs dflt ad cfg) anc =
+  map (jentry anc ad) (sort_by t_name (map snd tasks)) ++
+  flat_map (fun nk => pick (fun sc => jshown sc (anc ++ [snd nk])) [] subs (snd nk)) (jorder subs).
+Proof.
+  cbn [jshown]. f_equal. apply flat_map_ext. intros nk.
+  induction subs as [|[k' sc] l IH]; [reflexivity|].
+  cbn [pick]. destruct (String.eqb (snd nk) k'); [reflexivity | exact IH].
+Qed.
+
+Fixpoint jentries (c : coll) (anc : list string) {struct c} : list entry :=
+  match c with
+  | Coll _ tasks _ subs _ ad _ =>
+      map (fun kt => jentry anc ad (snd kt)) tasks ++
+      (fix go (l : list (string * coll)) : list entry :=
+         match l with
+         | [] => []
+         | (k, sc) :: l' => jentries sc (anc ++ [k]) ++ go l'
+         end) subs
+  end.
+
+Lemma jentries_unfold nm tasks aliases subs dflt ad cfg anc :
+  jentries (Coll nm tasks aliases subs dflt ad cfg) anc =
+  map (fun kt => jentry anc ad (snd kt)) tasks ++
+  flat_map (fun kc => jentries (snd kc) (anc ++ [fst kc])) subs.
+Proof.
+  cbn [jentries]. f_equal. induction subs as [|[cn sc] l IH]; [reflexivity|].
+  cbn [flat_map fst snd]. rewrite IH. reflexivity.
+Qed.
+
+(** every task is bound by its own (normalised) name and every
+    sub-collection by its own name: outside this, the JSON listing shows own
+    names where the other listings show binding names (F-C10c) *)
+Fixpoint own_named (c : coll) : bool :=
+  match c with
+  | Coll _ tasks _ subs _ ad _ =>
+      forallb (fun kt => String.eqb (transform ad (t_name (snd kt))) (fst kt)) tasks &&
+      (fix go (l : list (string * coll)) : bool :=
+         match l with
+         | [] => true
+         | (k, sc) :: l' => String.eqb (ostr (c_name sc)) k && own_named sc && go l'
+         end) subs
+  end.
+
+Lemma own_named_unfold nm tasks aliases subs dflt ad cfg :
+  own_named (Coll nm tasks aliases subs dflt ad cfg) =
+  forallb (fun kt => String.eqb (transform ad (t_name (snd kt))) (fst kt)) tasks &&
+  forallb (fun kc => String.eqb (ostr (c_name (snd kc))) (fst kc) && own_named (snd kc)) subs.
+Proof.
+  cbn [own_named]. f_equal. induction subs as [|[k sc] l IH]; [reflexivity|].
+  cbn [forallb fst snd]. rewrite IH. reflexivity.
+Qed.
+
+Lemma flat_map_map {A B C} (g : A -> B) (f : B -> list C) l :
+  flat_map f (map g l) = flat_map (fun x => f (g x)) l.
+Proof. induction l as [|x l IH]; [reflexivity|]. cbn [map flat_map]. rewrite IH. reflexivity. Qed.
+
+Lemma jshown_perm : forall c, ns_wf c = true -> forall anc, Permutation (jshown c anc) (jentries c anc).
+Proof.
+  induction c as [n tasks aliases subs dflt ad cfg IH] using coll_ind'.
+  intros Hwf anc. destruct (wf_subs_nodup _ _ _ _ _ _ _ Hwf) as [ND Hsubs].
+  rewrite Forall_forall in IH.
+  assert (NoDup (akeys subs)) as NDs by (apply NoDup_app_r in ND; apply NoDup_app_r in ND; exact ND).
+  rewrite jshown_unfold, jentries_unfold. apply Permutation_app.
+  - rewrite <- (map_map snd (jentry anc ad)). apply Permutation_map, sort_by_perm.
+  - unfold jorder. rewrite (flat_map_perm _ _ _ (sort_by_perm fst _)), flat_map_map. cbn [snd].
+    apply flat_map_perm_pointwise. intros [k sc] Hkc. cbn [fst snd].
+    rewrite pick_assoc, (assoc_in_nodup k sc subs NDs Hkc).
+    apply (IH _ Hkc (Hsubs _ Hkc)).
+Qed.
+
+Lemma read_jtask_rows anc ad cur :
+  firstn (List.length anc) cur = anc ->
+  forall l rest,
+  json_shown (map (jtask_row (List.length anc) ad) l ++ rest) cur =
+  map (jentry anc ad) l ++ json_shown rest cur.
+Proof.
+  intros Hcur. induction l as [|t l IH]; intros rest; [reflexivity|].
+  cbn [map app]. cbn [json_shown jtask_row r_task r_depth r_name r_aliases fst snd].
+  rewrite Nat.sub_succ, Nat.sub_0_r, Hcur, IH. reflexivity.
+Qed.
+
+(** the header of a collection names the scope: the root at depth 0, a child
+    of the scope one level up otherwise *)
+Definition scope_ready (anc : list string) (nm : string) (cur : list string) : Prop :=
+  anc = [] \/ exists anc', anc = anc' ++ [nm] /\ firstn (List.length anc') cur = anc'.
+
+Lemma header_scope anc nm cur :
+  scope_ready anc nm cur ->
+  match List.length anc with O => [] | S d => firstn d cur ++ [nm] end = anc.
+Proof.
+  intros [->|[anc' [-> H]]]; [reflexivity|].
+  rewrite app_length, Nat.add_1_r, H. reflexivity.
+Qed.
+
+Lemma firstn_self {A} (l : list A) : firstn (List.length l) l = l.
+Proof. apply firstn_all. Qed.
+
+Lemma json_read : forall c, own_named c = true ->
+  forall anc cur rest, scope_ready anc (ostr (c_name c)) cur ->
+  exists cur', firstn (List.length anc) cur' = anc /\
+    json_shown (json_rows c (List.length anc) ++ rest) cur = jshown c anc ++ json_shown rest cur'.
+Proof.
+  induction c as [nm tasks aliases subs dflt ad cfg IH] using coll_ind'.
+  intros Hown anc cur rest Hsc. cbn [c_name] in Hsc.
+  rewrite own_named_unfold in Hown. apply andb_true_iff in Hown as [_ Hosubs].
+  rewrite forallb_forall in Hosubs. rewrite Forall_forall in IH.
+  rewrite json_rows_unfold, jshown_unfold. cbn [app].
+  cbn [json_shown r_task r_depth r_name fst snd]. rewrite (header_scope anc (ostr nm) cur Hsc).
+  rewrite <- !app_assoc.
+  rewrite (read_jtask_rows anc ad anc (firstn_self anc)).
+  assert (forall nks, (forall nk, In nk nks -> In (snd nk) (akeys subs)) ->
+          forall cur0 rest0, firstn (List.length anc) cur0 = anc ->
+          exists cur', firstn (List.length anc) cur' = anc /\
+            json_shown
+              (flat_map (fun nk : string * string =>
+                           pick (fun sc => json_rows sc (S (List.length anc))) [] subs (snd nk)) nks ++ rest0)
+              cur0 =
+            flat_map (fun nk : string * string =>
+                        pick (fun sc => jshown sc (anc ++ [snd nk])) [] subs (snd nk)) nks ++
+            json_shown rest0 cur') as Hblocks.
+  { induction nks as [|nk nks IHnks]; intros Hnks cur0 rest0 Hcur0.
+    - exists cur0. split; [exact Hcur0 | reflexivity].
+    - cbn [flat_map]. rewrite <- !app_assoc.
+      assert (In (snd nk) (akeys subs)) as Hk by (apply Hnks; left; reflexivity).
+      destruct (assoc_of_key (snd nk) subs Hk) as [sc [Has Hkc]].
+      rewrite !pick_assoc, Has.
+      pose proof (Hosubs _ Hkc) as Ho. cbn [fst snd] in Ho. apply andb_true_iff in Ho as [Hnm Hosc].
+      apply String.eqb_eq in Hnm.
+      destruct (IH _ Hkc Hosc (anc ++ [snd nk]) cur0
+                   (flat_map (fun nk0 : string * string =>
+                                pick (fun sc0 => json_rows sc0 (S (List.length anc))) [] subs (snd nk0)) nks
+                    ++ rest0))
+        as [cur2 [Hcur2 Heq]].
+      { right. exists anc. cbn [snd]. rewrite Hnm. split; [reflexivity | exact Hcur0]. }
+      cbn [snd] in Heq. rewrite app_length, Nat.add_1_r in Heq.
+      assert (firstn (List.length anc) cur2 = anc) as Hcur2'.
+      { apply (firstn_prefix anc [snd nk]). exact Hcur2. }
+      destruct (IHnks (fun nk0 H => Hnks nk0 (or_intror H)) cur2 rest0 Hcur2') as [cur3 [Hcur3 Heq3]].
+      exists cur3. split; [exact Hcur3|].
+      etransitivity; [exact Heq|]. rewrite <- app_assoc. f_equal. exact Heq3. }
+  destruct (Hblocks (jorder subs)) with (cur0 := anc) (rest0 := rest) as [cur' [Hc' Heq]].
+  - intros nk Hnk. unfold jorder in Hnk. apply (Permutation_in _ (sort_by_perm fst _)) in Hnk.
+    apply in_map_iff in Hnk. destruct Hnk as [kc [<- Hkc]]. cbn [snd]. apply in_map; exact Hkc.
+  - apply firstn_self.
+  - exists cur'. split; [exact Hc'|]. rewrite <- app_assoc. f_equal. exact Heq.
+Qed.
+
+Lemma jentries_rel : forall c, own_named c = true ->
+  forall anc, Forall2 entry_agrees (jentries c anc) (rel_entries c anc).
+Proof.
+  induction c as [nm tasks aliases subs dflt ad cfg IH] using coll_ind'.
+  intros Hown anc.
+  rewrite own_named_unfold in Hown. apply andb_true_iff in Hown as [Hot Hosubs].
+  rewrite forallb_forall in Hot, Hosubs. rewrite Forall_forall in IH.
+  rewrite jentries_unfold, rel_entries_unfold. apply Forall2_app.
+  - apply Forall2_map_same. intros [k t] Hkt. pose proof (Hot _ Hkt) as E. cbn [fst snd] in E.
+    apply String.eqb_eq in E. unfold entry_agrees, jentry, nentry. cbn [fst snd].
+    repeat split; try assumption.
+    + intros Hx. apply in_map_iff in Hx. destruct Hx as [a [<- Ha]]. apply in_map.
+      apply (Permutation_in a (Permutation_sym (sort_by_perm (fun x => x) (t_aliases t)))). exact Ha.
+    + intros Hx. apply in_map_iff in Hx. destruct Hx as [a [<- Ha]]. apply in_map.
+      apply (Permutation_in a (sort_by_perm (fun x => x) (t_aliases t))). exact Ha.
+  - apply Forall2_flat_map_same. intros kc Hkc.
+    pose proof (Hosubs _ Hkc) as Ho. apply andb_true_iff in Ho as [_ Ho].
+    apply (IH _ Hkc Ho).
+Qed.
+
+Lemma entry_agrees_trans a b c : entry_agrees a b -> entry_agrees b c -> entry_agrees a c.
+Proof.
+  intros [A1 [A2 [A3 A4]]] [B1 [B2 [B3 B4]]]. repeat split; try congruence.
+  - intros H. apply B4, A4, H.
+  - intros H. apply A4, B4, H.
+Qed.
+
+Lemma Forall2_trans {A} (R : A -> A -> Prop) :
+  (forall a b c, R a b -> R b c -> R a c) ->
+  forall l1 l2 l3, Forall2 R l1 l2 -> Forall2 R l2 l3 -> Forall2 R l1 l3.
+Proof.
+  intros HR l1 l2 l3 H12. revert l3. induction H12; intros l3 H23; inversion H23; subst; constructor; eauto.
+Qed.
+
+(** the JSON listing, read back the way the specification reads it
+    ([json_shown]), shows exactly the bindings of the tree -- for trees in
+    which everything is bound by its own name *)
+Theorem json_listing_spec c :
+  ns_wf c = true -> own_named c = true -> alias_table_own c = true ->
+  exists ents, Permutation (json_shown (json_rows c 0) []) ents /\
+               Forall2 entry_agrees ents (rel_expected c).
+Proof.
+  intros Hwf Hown Hat. exists (jentries c []). split.
+  - destruct (json_read c Hown [] [] [] (or_introl eq_refl)) as [cur' [_ Heq]].
+    cbn [List.length] in Heq. rewrite app_nil_r in Heq. rewrite Heq. cbn [json_shown]. rewrite app_nil_r.
+    apply jshown_perm; exact Hwf.
+  - apply (Forall2_trans entry_agrees entry_agrees_trans _ (rel_entries c [])).
+    + apply jentries_rel; exact Hown.
+    + apply rel_entries_bindings; assumption.
+Qed.
+
 Print Assumptions flat_listing.
 Print Assumptions flat_listed_once.
 Print Assumptions flat_listed_accepted.
@@ -1015,3 +1249,4 @@ Print Assumptions listed_name_accepted.
 Print Assumptions nested_listing.
 Print Assumptions nested_listing_spec.
 Print Assumptions tnt_expected.
+Print Assumptions json_listing_spec.
